@@ -35,7 +35,7 @@ type Case struct {
 	Late    bool         `json:"late,omitempty"` // one more call is started while the failure is in progress (interleaving table)
 }
 
-const deadline = 8 * time.Second
+const deadline = 25 * time.Second
 
 type hangErr string
 
